@@ -109,5 +109,60 @@ def run(tier):
           and any("symbols" in d[-1] for d in origins(er, t["args"][0]))]
     rep.ob("recovery.symbol-pushed-once", "pushes onto symbols after ErrorRecovery{..}: %s" % sp, len(sp) == 1,
            "the error symbol is pushed %d times" % len(sp), key="recovery-symbol-push", file=rel, line=a["ln"], fn=er.path)
+    # ---- span of the error node: documented preference order, by value-flow of the pushed triple
+    def src_kind(call_block):
+        t = er.blocks[call_block]["t"]
+        c = (callee_of(t) or "").split("::")[-1]
+        if not t["args"]:
+            return (c, None)
+        recv = origins(er, t["args"][0])
+        kind = None
+        if any(d[0] == "arg" and d[1] == 1 and "symbols" in d[2] for d in recv):
+            kind = "symbols"
+        elif core.slice_locals(er, [t["args"][0]]) & D:
+            kind = "dropped_tokens"
+        elif any(d[0] == "arg" and d[1] == 2 for d in recv) or any(d[0] == "call" and d[1].endswith("::take") for d in recv):
+            kind = "lookahead"
+        elif any(d[0] == "arg" and d[1] == 1 and "definition" in d[2] for d in recv):
+            kind = "definition"
+        return (c, kind)
+
+    sym_push = None
+    for bi, t in er.calls():
+        if callee_of(t) == "std::vec::Vec::<T, A>::push" and bi in after and any("symbols" in d[-1] for d in origins(er, t["args"][0])):
+            sym_push = t
+    if sym_push is None:
+        rep.anchor_missing("push of the recovery symbol")
+    else:
+        l = core.op_local(sym_push["args"][1])
+        agg = [d for _, si, d in er.defs.get(l, []) if si != "t" and d["r"]["k"] == "agg"]
+        if len(agg) != 1 or len(agg[0]["r"]["ops"]) != 3:
+            rep.anchor_missing("(start, recovery, end) triple")
+        else:
+            tr = lambda c: [0] if c and (c.endswith("::clone") or c.endswith("Option::<T>::unwrap")) else None
+            def srcs(op):
+                out = set()
+                for d in origins(er, op, transparent=tr):
+                    if d[0] == "call":
+                        c, kind = src_kind(d[2])
+                        out.add((c, kind, d[3][-1] if d[3] else None))
+                    else:
+                        out.add(("?" + d[0], None, None))
+                return out
+            START = {("get", "symbols", "0"), ("first", "dropped_tokens", "0"), ("index", "symbols", "2"), ("start_location", "definition", None)}
+            END = START | {("last", "dropped_tokens", "2"), ("last", "symbols", "2"), ("as_ref", "lookahead", "0")}
+            got_s, got_e = srcs(agg[0]["r"]["ops"][0]), srcs(agg[0]["r"]["ops"][2])
+            rep.ob("span.start-sources", "error node start <- %s" % sorted(map(str, got_s)), got_s == START,
+                   "the start of the error node is taken from %s; documented: start of the first popped symbol, else start of the first dropped token, "
+                   "else end of the symbol below, else the start location" % sorted(map(str, got_s - START)) if got_s - START else "a documented source of the start position is missing: %s" % sorted(map(str, START - got_s)),
+                   key="span-start", file=rel, line=a["ln"], fn=er.path)
+            rep.ob("span.end-sources", "error node end <- %s" % sorted(map(str, got_e)), got_e == END,
+                   "the end of the error node is taken from %s; documented: end of the last dropped token, else end of the last popped symbol, else start of the "
+                   "lookahead, else the start position" % sorted(map(str, got_e - END)) if got_e - END else "a documented source of the end position is missing: %s" % sorted(map(str, END - got_e)),
+                   key="span-end", file=rel, line=a["ln"], fn=er.path)
+            ro = origins(er, agg[0]["r"]["ops"][1])
+            rep.ob("span.symbol-is-recovery-symbol", "middle <- %s" % sorted(d[1].split("::")[-1] for d in ro if d[0] == "call"),
+                   all(d[0] == "call" and d[1].endswith("ParserDefinition::error_recovery_symbol") for d in ro) and bool(ro), "",
+                   key="span-symbol", file=rel, line=a["ln"], fn=er.path)
     errorcol.check(rep, f, "errorcol.")
     return rep
